@@ -76,7 +76,8 @@ def scenario(rng):
     for _ in range(rng.randint(3, 12)):
         r = rng.random()
         if r < 0.2:
-            steps.append({"op": "call", "i": 1, "api": "write_setter", "v": rng.choice(ids + ["!bad1", "!bad2", "!bad3"])})
+            steps.append({"op": "call", "i": 1, "api": rng.choice(["write_setter", "write_setter", "write_state"]),
+                          "v": rng.choice(ids + ["!bad1", "!bad2", "!bad3"])})
         elif r < 0.4:
             steps.append({"op": "call", "i": 1, "api": "write_model", "v": rng.choice(ids + ids + ["!bad1", "!bad2", "!bad3"])})
         else:
